@@ -68,9 +68,15 @@ func runOne(c *verdict.Ctx, idx int) {
 	// adversarial prefix: random asynchrony, with a scripted strategy in most executions
 	steps := cfg.Steps / 2
 	recipe := "none"
-	switch r.Intn(6) {
+	switch r.Intn(7) {
 	case 0:
 		net.AsyncRun(steps)
+	case 6:
+		net.AsyncRun(r.Intn(steps + 1))
+		_, hi0 := net.MinMaxHeight()
+		net.RunSync(hi0, 60, 300, nil)
+		net.Synchronous = false
+		recipe = "stale-valid-block:" + net.RecipeStaleValidBlock()
 	case 5:
 		net.AsyncRun(r.Intn(steps + 1))
 		_, hi0 := net.MinMaxHeight()
